@@ -18,6 +18,7 @@ import Proofs.C10_Elastic
 import Proofs.C10_Objects
 import Proofs.C10_Error
 import Proofs.C10_Call
+import Proofs.C10_Counts
 import Atomman.C09
 import Mathlib.Algebra.Order.Field.Rat
 
@@ -1085,5 +1086,47 @@ example : resolveCall ["atype", "pos", "vel"] none (some [none, some "nm"]) none
 example : resolveCall ["atype", "pos"] (some ["pos", "atype", "pos"]) (some [some "nm", none, some "pm"]) none
     = some [("pos", some "pm"), ("atype", none)] := by decide
 example : resolveCall ["atype", "pos"] (some ["atype"]) none (some [("atype", none)]) = none := by decide
+
+/-! ## counts: the array read back from a LONG value list
+
+`uc.value_unit` hands `term['value']` to `np.asarray` whole.  What comes back does not depend on the length of the list
+or on any way of cutting it into blocks: the type is decided by ALL entries and the buffer is the blocks' buffers one
+after the other.  (The tester's `value-unit-fromiter-long-lists` and the own `value-unit-dtype-from-head` are the two
+ways of getting this wrong: a fast path above a length, a type taken from the head.) -/
+
+/-- **value_list_blocks_int**: two blocks of integers - of any lengths - are read as the integer array of both. -/
+theorem value_list_blocks_int [IntCast K] (a b : List (Sc K)) (ia ib : List Int)
+    (ha : mapOpt Sc.int? a = some ia) (hb : mapOpt Sc.int? b = some ib) (hne : a ++ b ≠ []) :
+    Data.ofScs (a ++ b) = some (Data.int (ia ++ ib)) :=
+  ofScs_append_int a b ia ib ha hb hne
+
+/-- **value_list_tail_decides**: an entry that is not an integer anywhere in the tail block makes the whole array a
+    non-integer array, however long the integer head is. -/
+theorem value_list_tail_decides [IntCast K] (a b : List (Sc K)) (hb : mapOpt Sc.int? b = none) (is : List Int) :
+    Data.ofScs (a ++ b) ≠ some (Data.int is) :=
+  ofScs_append_tail_decides a b hb is
+
+/-- **value_list_blocks_num**: numeric blocks that are not all integers are read as the float array of both blocks'
+    values (integers cast), in order. -/
+theorem value_list_blocks_num [IntCast K] (a b : List (Sc K)) (xa xb : List K)
+    (ha : mapOpt Sc.num? a = some xa) (hb : mapOpt Sc.num? b = some xb) (hi : mapOpt Sc.int? (a ++ b) = none) :
+    Data.ofScs (a ++ b) = some (Data.flt (xa ++ xb)) :=
+  ofScs_append_num a b xa xb ha hb hi
+
+/-- **value_list_blocks_str**: string blocks are read as the string array of both: every string whole, no width fixed by
+    the head. -/
+theorem value_list_blocks_str [IntCast K] (a b : List (Sc K)) (sa sb : List String)
+    (ha : mapOpt Sc.str? a = some sa) (hb : mapOpt Sc.str? b = some sb) (hne : a ++ b ≠ []) :
+    Data.ofScs (a ++ b) = some (Data.str (sa ++ sb)) :=
+  ofScs_append_str a b sa sb ha hb hne
+
+/-- non-vacuity: an integer head with an integer tail, with a fraction in the tail, short labels with a long one last. -/
+example : Data.ofScs ([Sc.int 1, Sc.int 2] ++ [Sc.int (-7)] : List (Sc Rat)) = some (Data.int [1, 2, -7]) ∧
+    Data.ofScs ([Sc.int 1, Sc.int 2] ++ [Sc.flt (1 / 2)] : List (Sc Rat)) = some (Data.flt [1, 2, 1 / 2]) ∧
+    Data.ofScs ([Sc.str "a", Sc.str "bb"] ++ [Sc.str "interstitial-site"] : List (Sc Rat))
+      = some (Data.str ["a", "bb", "interstitial-site"]) := by
+  refine ⟨rfl, ?_, rfl⟩
+  simp [Data.ofScs, mapOpt, Sc.int?, Sc.num?]
+
 
 end Atomman.C10
